@@ -46,6 +46,7 @@ SEEDS = [
     'C(=O)=O', 'N#N', 'S=C=S', 'C1CCC2(CC1)CC2', 'C1CC12CC2', 'CC(C)(C)C(C)(C)C', 'NC(N)=O', 'C[P+](C)(C)C',
     'C[C@H](O)[C@H](O)[C@@H](C)O', 'C/C=C/[C@H](O)/C=C\\C', 'C[C@H](O)[C@@H](O)[C@H](C)O', 'O[C@H]1C[C@@H](O)C1',
     'C[C@H]1C[C@H](C)C[C@H](C)C1', 'C/C=C/C(/C=C/C)=C/C', 'F[C@H](Cl)[C@@H](Br)[C@H](F)Cl', 'C[C@@H](F)C(Cl)[C@@H](F)C',
+    'C1CCCCC1C1CCCC1', 'C1CC1C1CC1', 'C1CCC1C1CCC1', 'C1=CC=CC=C1C1=CC=CC=C1', 'C1CC1CC1CC1', 'C1CC1CCC1CC1', 'C1CCC2(CC1)OCCO2',
     'C[C@H]([13CH3])O', '[13CH3]/C(C)=C/C', '[2H][C@H](C)O', 'C[C@H]([13CH3])[C@H](C)O', 'CC(CC)=[C@]=CC', 'C[C@H](O)[C@H](CCN)[C@H](O)C',
     'ClC(Cl)Cl', 'BrCCBr', 'FC(F)(F)F', 'CSSC', 'C[S-]', 'C[NH-]', '[NH3+]CC([O-])=O',
 ]
